@@ -30,7 +30,7 @@ class WorkerDecompress(Contract):
     target = PY + "Worker.decompress"
     props = ("C05", "C20", "C18", "C04", "C01", "C09")
     abstract = True
-    pure = ("calculate_crc32", "str", "check_crc")
+    pure = ("calculate_crc32", "str", "check_crc", "get_unpack_size")
     opaque = ("helpers:calculate_crc32",)  # used here as a pure function of (chunk, running crc); its own contract is in sigheader.py
     int_functions = ("get_memory_limit",)
     immutable_results = ("decompress",)
@@ -175,5 +175,12 @@ class WorkerDecompress(Contract):
                 guard = Or(guard, eq(attr(decs[-1], "crc"), None))
             if checks:
                 guard = Or(guard, truthy(checks[-1].result))
+            # the folder CRC covers the folder's WHOLE output (FX23): it is compared once the decoder has handed out
+            # all of it - for a folder of several members that is at the end of the last one
+            sizes = [e for e in tr if e.kind == "pure" and e.name == "get_unpack_size"]
+            if decs and sizes:
+                produced = SOpq(V.uf("attr_produced", V.vsort(), z3.IntSort(), V.vsort())(decs[-1].t, z3.IntVal(eng.ghost.get("heapver", 0))))
+                complete = SBool(cmpf(V.box(produced).t, V.box(sizes[-1].result).t))
+                guard = Or(guard, Not(complete))
         out.append(("folder-crc-checked-at-end-of-folder", guard, ("C04",)))
         return out
